@@ -21,6 +21,7 @@ ASSUME = ['plans: plain = established pair; c: = A dials and sends from its on-c
 
 READ, WRITE, ERROR = 1, 2, 4
 MESSAGES = {
+    'n': None,                                 # the message None
     'e': '',                                   # minimal payload
     's': {'type': 'x', 'n': 1},                 # small
     'm': b'\x00\x01\x02\x03\x04\x05\x06\x07',    # around the buffer sizes once framed
@@ -390,10 +391,10 @@ def main(tier, seed, job_filter=None):
     rep = core.Report(PROP, tier, seed, TECH, ASSUME)
     q = tier == 'quick'
     if q:
-        clean = ['e', 's', 'm', 'es', 'se', 'c:s', 'c:m', 'c:se', 'r:e', 'r:s', 't:e']
+        clean = ['n', 'ns', 'e', 's', 'm', 'es', 'se', 'c:s', 'c:m', 'c:se', 'r:e', 'r:s', 't:e']
         cplans = ['s', 'es']
     else:
-        clean = plans_of(2, 'esm') + ['L', 'eL', 'Ls'] + ['ese', 'sms', 'ems'] + ['c:s', 'c:m', 'c:L', 'c:se', 'c:ms', 'r:e', 'r:s', 'r:m', 'r:es', 'r:ss', 't:e', 't:s', 't:m']
+        clean = plans_of(2, 'esm') + ['n', 'ns', 'sn', 'nn', 'L', 'eL', 'Ls'] + ['ese', 'sms', 'ems'] + ['c:s', 'c:m', 'c:L', 'c:se', 'c:ms', 'r:e', 'r:s', 'r:m', 'r:es', 'r:ss', 't:e', 't:s', 't:m']
         cplans = plans_of(2, 'esm') + ['m', 's', 'e']
     jobs = [(job, dict(name='framing:clean:%s' % p, plans=[p], corrupt=False)) for p in clean]
     for p in cplans:
